@@ -20,8 +20,13 @@
      * the per-(recipient, id) form of at-most-once: it needs a world-level invariant relating server queues and
        both ratchets.  What is proved is its per-stanza / per-ciphertext form for each account.  The simulator found
        two genuine violations of the full statement (known_findings/C03.json: a duplicated undecryptable
-       sender-key stanza is shown twice; reordered first group messages are silently lost). *)
-From YV Require Import Common.Tac C03.C03Model C03.C03Proofs C03.C03WorldModel C03.C03WorldProofs C03.C03WorldCipher.
+       sender-key stanza is shown twice; reordered first group messages are silently lost).
+   CHAIN POSITION (C03/C03ChainModel.v, C03/C03Chain.v; the C03_chain_* / C03_late_key_* theorems at the end): a
+   sender-key distribution message carries the chain position AT ITS CREATION, so a member that gets the key late
+   (through the answer to its retry receipt) is never shown a stanza encrypted before that answer again - the part
+   of per-(recipient, id) at-most-once that concerns a late duplicate of the original group stanza. *)
+From YV Require Import Common.Tac C03.C03Model C03.C03Proofs C03.C03WorldModel C03.C03WorldProofs C03.C03WorldCipher
+                       C03.C03ChainModel C03.C03Chain.
 Local Open Scope N_scope.
 
 (* ---- only ciphertext ---- *)
@@ -157,3 +162,115 @@ Theorem C03_complete_partial :
   script_ok [(1, (0, ex_nd1)); (2, (1, ex_nd2))] ex_acts.
 Proof. exact world_complete_example. Qed.
 Print Assumptions C03_complete_partial.
+
+(* ---- the chain position a sender-key distribution message carries ----
+   own_iter a g     = next iteration of a's own sender key for g (C03Model: a_skown)
+   chain_start b g s = where b's chain in use for (group g, sender s) starts
+   chain_rel a a' os (C03Chain.v) =  (forall g, own_iter a' g = own_iter a g + number of stanzas to g in os that carry a
+                                      sender-key ciphertext)
+                                  /\ every stanza OMsg to .. encs in os: each distribution message inside a pairwise
+                                      ciphertext of encs is (to, own_iter a to), a sender-key ciphertext in encs has
+                                      iteration own_iter a to                                                        *)
+
+(* ANY state, ANY input: what a step emits names the sender's position at that moment, and the position advances by
+   exactly the number of group messages encrypted *)
+Theorem C03_chain_position_step : forall a i, chain_rel a (fst (step a i)) (snd (step a i)).
+Proof. exact chain_step_thm. Qed.
+Print Assumptions C03_chain_position_step.
+
+(* a distribution message created after k group messages starts the recipient's chain at iteration k: the position
+   is the number of sender-key stanzas emitted so far (any start state, any input sequence) ... *)
+Theorem C03_chain_position_counts : forall ins a g,
+  own_iter (fst (run a ins)) g = own_iter a g + N.of_nat (count (is_sk_to g) (trace a ins)).
+Proof. exact chain_counts_thm. Qed.
+Print Assumptions C03_chain_position_counts.
+
+(* ... every sender-key ciphertext emitted during a run lies strictly below the position reached at its end ... *)
+Theorem C03_chain_emitted_below_position : forall ins a g m ty part encs it c mt,
+  In (OMsg g m ty part encs) (trace a ins) -> In (OES it c mt) encs ->
+  own_iter a g <= it /\ it < own_iter (fst (run a ins)) g.
+Proof. exact emitted_below_position_thm. Qed.
+Print Assumptions C03_chain_emitted_below_position.
+
+(* ... and a recipient without a chain that reads the distribution message (g, it) starts its chain at it *)
+Theorem C03_chain_late_key_start : forall b im e b1 p g s it,
+  chain_start b g s = None ->
+  i_from im = g -> sender_of im = s -> i_pw im = Some e ->
+  decrypt_pw b s e = (b1, DOk p) -> p_skdm p = Some (g, it) ->
+  chain_start (fst (handle_enc b im)) g s = Some it.
+Proof. exact late_key_chain_start_thm. Qed.
+Print Assumptions C03_chain_late_key_start.
+
+(* a stanza encrypted at an iteration below a recipient's chain start is never delivered to that recipient's
+   application, after ANY further history; intact, it is re-acknowledged and nothing else *)
+Theorem C03_chain_below_start_never_shown : forall b im e k older ins,
+  i_pw im = None -> i_sk im = Some e ->
+  lookup (pairkey (i_from im) (sender_of im)) (a_skpeer b) = Some (k :: older) -> se_iter e < k_start k ->
+  count is_deliver (snd (handle_enc (fst (run b ins)) im)) = 0%nat /\
+  (se_corrupt e = false ->
+   snd (handle_enc (fst (run b ins)) im) = [OReceipt (i_from im) (i_part im) (i_id im)]).
+Proof. exact below_chain_start_never_shown_thm. Qed.
+Print Assumptions C03_chain_below_start_never_shown.
+
+(* TOGETHER - the late key.  Sender: any state a0, any history ins_s, then it answers c's retry receipt for nd with
+   the directed re-encryption (OMsg .. encs, pairwise ciphertext payload pay).  Old stanza: any sender-key ciphertext
+   (iteration it0) of any stanza to that group emitted during ins_s.  Receiver: any state b without a chain for
+   (group, s) that reads the re-encryption (stanza im); then any further history ins_r.  A stanza carrying the old
+   ciphertext is never shown; an intact one (the server's duplicate of the original) gets exactly a delivery receipt *)
+Theorem C03_late_key_no_redelivery :
+  forall a0 ins_s nd c cnt to m ty part encs f pk j sid n pay mt,
+    In (OMsg to m ty part encs) (snd (send_to_group_with_sessions (fst (run a0 ins_s)) nd [c] cnt)) ->
+    In (OEP f pk j sid n pay mt) encs ->
+  forall m' ty' part' encs' it0 c0 mt0,
+    In (OMsg (n_to nd) m' ty' part' encs') (trace a0 ins_s) -> In (OES it0 c0 mt0) encs' ->
+  forall b s im e b1 p,
+    chain_start b (n_to nd) s = None ->
+    i_from im = n_to nd -> sender_of im = s -> i_pw im = Some e -> pe_pay e = pay ->
+    decrypt_pw b s e = (b1, DOk p) ->
+  forall ins_r im_old eo,
+    i_from im_old = n_to nd -> sender_of im_old = s -> i_pw im_old = None -> i_sk im_old = Some eo ->
+    se_iter eo = it0 ->
+    count is_deliver (snd (handle_enc (fst (run (fst (handle_enc b im)) ins_r)) im_old)) = 0%nat /\
+    (se_corrupt eo = false ->
+     snd (handle_enc (fst (run (fst (handle_enc b im)) ins_r)) im_old) =
+     [OReceipt (i_from im_old) (i_part im_old) (i_id im_old)]).
+Proof. exact late_key_no_redelivery_thm. Qed.
+Print Assumptions C03_late_key_no_redelivery.
+
+(* the send path with the position as a parameter (C03ChainModel.step_v / wrun_v), at pos_fresh = own_iter, IS the
+   model: the refutation below is about the same machine with one line changed *)
+Theorem C03_chain_variant_is_model : forall groups acts w, wrun_v pos_fresh groups w acts = wrun groups w acts.
+Proof. exact wrun_v_fresh_thm. Qed.
+Print Assumptions C03_chain_variant_is_model.
+
+(* non-vacuity, computed world runs (3 accounts; 0 and 1 talked 1:1, 0's first group message, the server duplicates
+   1's sender-key-only stanza and delivers the copy AFTER 1 was served through its retry receipt - right away, and
+   after a further group message): 1 is shown message 3 once, the late copy gets exactly a delivery receipt *)
+Theorem C03_late_key_history_example :
+  shown_to 1 (snd (wrun lk_groups (winit [0; 1; 2]) lk_acts)) = [d1; d3] /\
+  nth_error (snd (wrun lk_groups (winit [0; 1; 2]) lk_acts)) 15 = Some (1, [r3]) /\
+  w_queue (fst (wrun lk_groups (winit [0; 1; 2]) lk_acts)) = [] /\
+  shown_to 1 (snd (wrun lk_groups (winit [0; 1; 2]) lk_acts_traffic)) = [d1; d3; d4] /\
+  nth_error (snd (wrun lk_groups (winit [0; 1; 2]) lk_acts_traffic)) 23 = Some (1, [r3]) /\
+  w_queue (fst (wrun lk_groups (winit [0; 1; 2]) lk_acts_traffic)) = [].
+Proof. exact late_key_history_example. Qed.
+Print Assumptions C03_late_key_history_example.
+
+(* REFUTED for the memoised distribution message (pos_cached: chain start 0 whatever has been sent): on the same
+   histories the late copy of the original stanza is shown to account 1's application a second time *)
+Theorem C03_chain_cached_position_refuted :
+  shown_to 1 (snd (wrun_v pos_cached lk_groups (winit [0; 1; 2]) lk_acts)) = [d1; d3; d3] /\
+  nth_error (snd (wrun_v pos_cached lk_groups (winit [0; 1; 2]) lk_acts)) 15 = Some (1, [d3; r3]) /\
+  shown_to 1 (snd (wrun_v pos_cached lk_groups (winit [0; 1; 2]) lk_acts_traffic)) = [d1; d3; d4; d3] /\
+  nth_error (snd (wrun_v pos_cached lk_groups (winit [0; 1; 2]) lk_acts_traffic)) 23 = Some (1, [d3; r3]).
+Proof. exact cached_position_refuted. Qed.
+Print Assumptions C03_chain_cached_position_refuted.
+
+(* ... and its position can lie below a sender-key ciphertext already emitted (C03_chain_emitted_below_position fails
+   for it) *)
+Theorem C03_chain_cached_below_emitted_refuted :
+  exists a0 ins g m ty part encs it c mt,
+    In (OMsg g m ty part encs) (trace a0 ins) /\ In (OES it c mt) encs /\
+    ~ (it < pos_cached (fst (run a0 ins)) g).
+Proof. exact cached_position_below_emitted_refuted. Qed.
+Print Assumptions C03_chain_cached_below_emitted_refuted.
